@@ -3,6 +3,11 @@
 import json
 
 CLAIMED = {
+    "C04": {
+        "text": "Proof about the parser model (grammar of CEL.g4 + the visitor of parser.rs): parse_render_full - for every well-formed source tree over the complete operator set (?:, ||, &&, the seven relations, + - * / %, prefix ! and -, index, select), of every size and depth, rendering it fully parenthesised and parsing the tokens yields exactly the tree it denotes (fuel of parseTop shown sufficient); balanced_tree_inorder - a chain of && / || of ANY length lists exactly the operands written, in source order; prefix_not_parity / prefix_neg_parity - an even run of prefix operators cancels and an odd run applies once, single '-' before a number is its sign; macro_expansion_preserves_arguments - every comprehension macro has the receiver as its range unchanged and every non-binder argument intact inside the step; has() only sets the test flag; other names are ordinary calls. The minimal-parenthesisation round trip is not proved (partial); it is checked by the correspondence. Tie to the code: all trees with <= 2 operators x 2 leaf kinds rendered fully and minimally parenthesised, chains to length 64, prefix runs to 6, random trees to depth 7, grammar corner texts and the other generators' programs, compiled by the real ANTLR parser: the AST is compared with the model's and with the tree that was rendered (modulo re-association of logical chains).",
+        "technique": "Lean 4: fuel-indexed recursive-descent parser model, one-step unfolding lemmas + lifting lemmas per precedence level, induction on the source tree; strong induction for balanced trees + differential correspondence against the real parser",
+        "design_ref": "DESIGN.md section 5, C04",
+    },
     "C05": {
         "text": "Proof (partial for the scheduler): the evaluator model is a function of context, program and start state, so repeatability and context immutability of the model are definitional; the one impure-looking mechanism of the code - in-place append on uniquely owned Arc buffers in impl Add for Value - is modelled as a reference-counted heap state machine and proved unobservable: concat keeps the ownership invariant (count = number of live handles), its result reads as the concatenation, every handle that survives the operation reads exactly what it read before (the in-place path is only taken when no alias exists), for every reachable state by induction over operation histories; for threads that read shared data and write only their own state every schedule yields, per thread, what it would compute alone (interleaving_irrelevant). Assumed, not proved: that Rust's Arc counts equal the number of aliases, and that real scheduler interleavings are schedules of such atomic steps; these are observed: histories of 2-50 executions (concatenation- and macro-heavy, aliased values) with the context and all earlier results re-read after each execution and every execution repeated; the same histories under 4-16 threads x 20-200 rounds sharing &Program and a root &Context through inner scopes (separate celconc binary, which also carries the compile-time Send + Sync assertions - its failure to compile is reported as the violation).",
         "technique": "Lean 4 invariant proof over a reference-counted heap state machine and a schedule-independence theorem + history / multi-thread differential observation of the real code",
